@@ -114,32 +114,43 @@ impl NativeFnValue for Card {
 /// module, the planted card token and the number of call cards on the chain
 fn gen_case(rng: &mut Rng) -> (Module, String, usize) {
     let tag = rng.range(1000, 9999);
-    let (fail, _kind) = failing_card(rng, tag);
+    let depth = rng.range(0, 3) as usize;
+    let nest = rng.range(0, 3) as usize;
+    let in_sub = rng.chance(1, 3) && depth > 0;
+    // variant: the failing function is function 0 of a module nested in a module whose only
+    // function has one card, and its FIRST card is a failing leaf standing as a statement
+    let nested_t = in_sub && rng.chance(1, 3);
+    let (fail, _kind) = if nested_t {
+        if rng.chance(1, 2) { (Card::call_native("fail", vec![]), "TaskFailure") } else { (Card::read_var(format!("undefined_global_{tag}")), "VarNotFound") }
+    } else {
+        failing_card(rng, tag)
+    };
     // the card whose own instruction raises the error (for `len(strlen(..))` the inner call)
     let planted = match &fail.body {
         CardBody::Len(u) => card_tok(&u.card),
         _ => card_tok(&fail),
     };
-    let depth = rng.range(0, 3) as usize;
-    let nest = rng.range(0, 3) as usize;
-    let in_sub = rng.chance(1, 3) && depth > 0;
-    let stmt = wrap(rng, fail, nest);
+    let stmt = if nested_t { fail } else { wrap(rng, fail, nest) };
     let filler = |rng: &mut Rng| -> Vec<Card> { (0..rng.range(0, 2)).map(|i| Card::set_global_var(format!("fill{i}"), int(i))).collect() };
     let mut root_fns: Vec<(String, Function)> = vec![];
     let mut sub_fns: Vec<(String, Function)> = vec![];
     // function k calls function k+1
     for k in 0..=depth {
         let name = if k == 0 { "main".to_string() } else { format!("lvl{k}") };
-        let mut cards = filler(rng);
+        let mut cards = if nested_t && k == depth { vec![] } else { filler(rng) };
         if k == depth {
             cards.push(stmt.clone());
         } else {
             let callee = format!("lvl{}", k + 1);
             let callee_in_sub = in_sub && k + 1 == depth;
-            let target = if callee_in_sub { format!("s.{callee}") } else { callee };
-            let call = match rng.below(2) {
-                0 => Card::call_function(target, vec![]),
-                _ => Card::dynamic_call(c(CardBody::Function(target)), vec![]),
+            let target = if callee_in_sub { if nested_t { format!("s.t.{callee}") } else { format!("s.{callee}") } } else { callee };
+            let call = match rng.below(9) {
+                0..=3 => Card::call_function(target, vec![]),
+                4..=7 => Card::dynamic_call(c(CardBody::Function(target)), vec![]),
+                // through a host function that re-enters the script (known finding K7: the error is
+                // then reported at the host call card and the trap frames add entries; the model
+                // predicts the exact trace, so the correspondence still pins the behaviour)
+                _ => Card::call_native("callback", vec![c(CardBody::Function(target)), int(0)]),
             };
             cards.push(Card::set_global_var(format!("ret{k}"), call));
         }
@@ -158,8 +169,16 @@ fn gen_case(rng: &mut Rng) -> (Module, String, usize) {
     }
     let mut submodules = vec![];
     if !sub_fns.is_empty() {
-        sub_fns.insert(0, ("other".to_string(), Function { arguments: vec![], cards: vec![] }));
-        submodules.push(("s".to_string(), Module { submodules: vec![], functions: sub_fns, imports: vec![] }));
+        if nested_t {
+            // `s` has one one-card function; the failing function is function 0 of the nested
+            // module `s.t` (same function index, same first card index, different namespace)
+            let inner = Module { submodules: vec![], functions: sub_fns, imports: vec![] };
+            let single = ("single".to_string(), Function { arguments: vec![], cards: vec![Card::set_global_var("one", int(1))] });
+            submodules.push(("s".to_string(), Module { submodules: vec![("t".to_string(), inner)], functions: vec![single], imports: vec![] }));
+        } else {
+            sub_fns.insert(0, ("other".to_string(), Function { arguments: vec![], cards: vec![] }));
+            submodules.push(("s".to_string(), Module { submodules: vec![], functions: sub_fns, imports: vec![] }));
+        }
     }
     (Module { submodules, functions: root_fns, imports: vec![] }, planted, depth)
 }
